@@ -94,22 +94,26 @@ def check_dunders(rep, rule, model, cls, kinds=None, with_lambda=False):
 
 
 def db_operation_facts(model, opname):
-    """The lambdas a database operation hands on: (callee, [lambda facts])."""
+    """The operators a database operation hands on: (fn, return stmt, callee name, [operator facts], [names of
+    the first four arguments]).  Operators may be lambdas, names bound to lambdas or local defs, passed
+    positionally or by keyword (in the callee's parameter order)."""
+    from .facts import callable_op, ordered_args
+
     fn = model.method("UnitDatabase", opname)
-    lambdas = {}
-    for n in ast.walk(fn.node):
-        if isinstance(n, ast.Assign) and isinstance(n.value, ast.Lambda) and isinstance(n.targets[0], ast.Name):
-            lambdas[n.targets[0].id] = n.value
     rets = [n for n in ast.walk(fn.node) if isinstance(n, ast.Return) and isinstance(n.value, ast.Call)]
     if len(rets) != 1:
         raise AnalysisError("UnitDatabase.%s: expected a single delegating return" % opname)
     call = rets[0].value
     callee = call.func.attr if isinstance(call.func, ast.Attribute) else None
+    cf = model.lookup("UnitDatabase", callee) if callee else None
+    if cf is not None:
+        ordered = ordered_args(call, cf)
+    else:
+        ordered = list(call.args)
     lams = []
-    for a in call.args:
-        if isinstance(a, ast.Lambda):
-            lams.append(lambda_op(a))
-        elif isinstance(a, ast.Name) and a.id in lambdas:
-            lams.append(lambda_op(lambdas[a.id]))
-    args = [a.id if isinstance(a, ast.Name) else None for a in call.args[:4]]
+    for a in ordered[4:]:
+        if a is None:
+            continue
+        lams.append(callable_op(fn.node, a))
+    args = [a.id if isinstance(a, ast.Name) else None for a in ordered[:4]]
     return fn, rets[0], callee, lams, args
